@@ -22,7 +22,7 @@ BUILDER_ORACLE = {'unit': 'builder', 'mount': 'src/compiler/builder.rs', 'mod': 
 # obligations of the builder unit that carry C20 (span recording) rather than C10 (widths)
 C20_BUILDER = (r'^builder/BytecodeBuilder::(emit|emit_jump|emit_jump_if_true|emit_jump_if_false|emit_jump_if_nullish|'
                r'emit_jump_if_not_nullish|emit_jump_to|emit_halt|set_span|clear_span|new|finish|patch_jump|patch_jump_to|'
-               r'patch_try_targets|patch_iter_try_target|current_offset|emit_load_string)/|^builder/BytecodeChunk::|^builder/lemma::lemma_lookup|^(lexer_pos|bytecode_srcmap)/')
+               r'patch_try_targets|patch_iter_try_target|current_offset|emit_load_string)/|^builder/BytecodeChunk::|^builder/lemma::lemma_lookup|^(lexer_pos|bytecode_srcmap|lexer_spans)/')
 C10_EXCLUDE = r'#(span_recorded|span_inherited|earlier_spans_kept)$|::(set_span|clear_span)/'
 
 PROPS = {
@@ -105,6 +105,15 @@ PROPS = {
              }, 'replay_test': 'verif_replay_bytecode_srcmap'},
         ],
         'oracles': [BUILDER_ORACLE],
+        'bounded_native': [{'unit': 'lexer_spans', 'mount': 'src/lexer.rs', 'mod': 'verif_replay_lexer_spans', 'test': 'verif_oracle_lexer_spans',
+                            'bound': 'every source string of length <= 5 over a 14-symbol alphabet (a 1 space LF CR ` $ { } / " \\ e-acute U+2028) + 70 structured template/regexp programs',
+                            'bound_thorough': 'every source string of length <= 6 over the same alphabet + the structured programs',
+                            'env': {'VERIF_LEXER_BOUND': '5'}, 'env_thorough': {'VERIF_LEXER_BOUND': '6'},
+                            'obligations': ['lexer_spans/Lexer::next_token/ensures#line_column_consistent_with_source',
+                                            'lexer_spans/Lexer::rescan_template_continuation/ensures#line_column_consistent_with_source',
+                                            'lexer_spans/Lexer::rescan_as_regexp/ensures#line_column_consistent_with_source',
+                                            'lexer_spans/Lexer::token_span/ensures#byte_range_inside_source',
+                                            'lexer_spans/Lexer::token_span/ensures#starts_never_move_backwards']}],
         'obl_filter': C20_BUILDER,
         'trusted_base': COMMON_TB,
         'assumptions': [
